@@ -1,7 +1,7 @@
 #!/bin/bash
 # tools/withpatch.sh <patch>... -- <prop>... : run kgv for the properties on a scratch
 # worktree of /repo HEAD with the patches applied (removed afterwards). Development aid.
-export GOFLAGS=-mod=mod GOPROXY=off GOSUMDB=off GOTOOLCHAIN=local
+export GOFLAGS="-mod=mod -trimpath" GOPROXY=off GOSUMDB=off GOTOOLCHAIN=local
 here="$(cd "$(dirname "$0")/.." && pwd)"
 patches=(); props=(); seen=0
 for a in "$@"; do if [ "$a" = "--" ]; then seen=1; elif [ $seen = 0 ]; then patches+=("$a"); else props+=("$a"); fi; done
